@@ -406,6 +406,28 @@ def r5_explicit_options_win(ctx):
                    'the optional argument `%s` is never merged with config[%r]: left at None it means "off", so a configured %s (e.g. --offset) has no effect on the displayed text' % (pname, pname, pname),
                    anchor=fp.qualname)
 
+    # ... and a function that hands its OWN optional argument on to such a parameter must leave it at None by default as well: a literal
+    # default (False) is an explicit value by the time it arrives, and the configured value never applies
+    merged_params = {pname for pname, d in dflt.items() if isinstance(d, ast.Constant) and d.value is None and pname in keys}
+    pos_names = [x.arg for x in a.args]
+    for fq, fn in sorted(ctx.prog.funcs.items()):
+        if fn is fp or fn.module is not fp.module:
+            continue
+        own = {x.arg: dd for x, dd in zip(fn.node.args.args[len(fn.node.args.args) - len(fn.node.args.defaults):], fn.node.args.defaults)}
+        for c in ast.walk(fn.node):
+            if not (isinstance(c, ast.Call) and isinstance(c.func, ast.Attribute) and c.func.attr == 'format_parts'):
+                continue
+            passed = {k.arg: k.value for k in c.keywords if k.arg}
+            for i, arg in enumerate(c.args):
+                if i + 1 < len(pos_names):
+                    passed[pos_names[i + 1]] = arg
+            for q_, v in passed.items():
+                if q_ in merged_params and isinstance(v, ast.Name) and v.id in own:
+                    dflt_ok = isinstance(own[v.id], ast.Constant) and own[v.id].value is None
+                    rep.ob('C18.R5', ctx.loc(fn, c), '%s: %s=%s (default %s)' % (fn.node.name, q_, v.id, ctx.src(own[v.id])), dflt_ok,
+                           'left at None the configured value applies' if dflt_ok else
+                           '`%s` hands its argument `%s` (default %s) on to format_parts(%s=...), where only None means "use the configuration": a caller that does not pass it never gets the '
+                           'configured %s (e.g. --offset has no effect on this listing)' % (fn.node.name, v.id, ctx.src(own[v.id]), q_, q_), anchor=fq)
     # the merge itself, evaluated over the values a caller may pass (FINITE-EVAL)
     gq = 'xdoctest.doctest_example.DoctestConfig.getvalue'
     gf = ctx.func(gq)
@@ -558,6 +580,7 @@ DE = 'xdoctest/doctest_example.py'
 DP = 'xdoctest/doctest_part.py'
 US = 'xdoctest/utils/util_str.py'
 VARIANTS = [
+    fire('format-src-default-is-an-explicit-value', 'C18.R5', (DE, "    def format_src(self, linenos=True, colored=None, want=True,\n                   offset_linenos=None, prefix=True):\n", "    def format_src(self, linenos=True, colored=None, want=True,\n                   offset_linenos=False, prefix=True):\n")),
     fire('getvalue-merges-by-truthiness', 'C18.R5', (DE, "        if given is None:\n            return self[key]\n", "        if not given:\n            return self[key]\n")),
     silent('getvalue-early-return', (DE, "        if given is None:\n            return self[key]\n        else:\n            return given\n", "        if given is not None:\n            return given\n        return self[key]\n")),
     fire('format-before-parse', 'C18.R8', (DE, "        self._parse()\n        colored = self.config.getvalue('colored', colored)\n", "        colored = self.config.getvalue('colored', colored)\n")),
